@@ -1,6 +1,6 @@
 """C12 — get_jacobian_func returns the derivative of get_run_func.
 Model: coq/theories/Jacobian.v (Impl `jac_impl`: expansion of intermediates, symbolic D, placement of the entries, the
-NameError / absv defects; Spec `jac_spec`: dual-number derivative of the vector field `vf`); theorems: coq/properties/C12.v.
+NameError defect; Spec `jac_spec`: dual-number derivative of the vector field `vf`); theorems: coq/properties/C12.v.
 Tie: E1 — random scalar (vectorize=False) polynomial models (1-3 nodes, 2-4 state variables, algebraic intermediates,
 edges, past() delays and delayed edges): every entry of J0 and of every history matrix, the vector field itself and the
 sparse=True variant are compared exactly (rationals) with the model evaluated inside Coq.
@@ -11,7 +11,6 @@ from core import *
 
 NEEDS = ["Jacobian", "JacobianProofs", "Corr"]
 GUARD_DELAYED = "no_delayed_factor_in_j0"
-GUARD_ABSV = "no_absv"
 STATE_NAMES = ["x", "z", "v", "w"]
 PARAM_NAMES = ["a", "b", "k"]
 INTER_NAMES = ["m", "g"]
@@ -271,11 +270,6 @@ def support_impl(case):
 
 
 # ---------------------------------------------------------------------------------------------- generator
-# classes that raise NameError on /repo and have no known_findings entry are generated only on request
-# (C12_EXTRA=identity,imports), to try a repair on a scratch worktree
-EXTRA = set(os.environ.get("C12_EXTRA", "").split(","))
-
-
 def dy(rng, lo, hi, den, nonzero=False):
     while True:
         v = Fr(rng.randint(lo * den, hi * den), den)
@@ -303,12 +297,8 @@ def gen_case(rng, allow_viol=False, absv=False, want_delay=None, fns=False):
                     src = ("state", rng.randrange(ns[s]))
                     d = rng.choice(["1/4", "1/2", "3/4", "1", "1", "5/4", "3/2", "2"]) if (delays and rng.random() < 0.4) else None
                 edges.append([s, src, t, dy(rng, -2, 2, 4, nonzero=True), d])
-    # a unit-weight undelayed edge is compiled to identity(source); when its source variable also feeds a delayed edge (buffered output,
-    # again identity(...)) the markers nest, `_resolve_derivatives` strips one level only and the generated Jacobian calls the undefined
-    # name `identity` (NameError; separate finding with a one-line repair, see the report): that combination is not generated
-    for e in edges:
-        if "identity" not in EXTRA and Fr(e[3]) == 1 and e[4] is None and any(f[0] == e[0] and f[1] == e[1] and f[4] is not None for f in edges):
-            e[3] = "3/4"
+    # unit-weight undelayed edges whose source also feeds a delayed edge, bare copies `m = s_in` (nested identity markers, repaired by
+    # fix D50) and lone sin / cos calls (import of derivative-only functions, fix D51) are part of the stream
     nodes, cls_inter, bits_inter = [], {}, {}
     viol = False
     for i in range(nn):
@@ -345,7 +335,7 @@ def gen_case(rng, allow_viol=False, absv=False, want_delay=None, fns=False):
                 f = rng.choice(["sigmoid", "sigmoid", "tanh", "sincos"])    # no exp: sympy merges exp(u)*exp(v)
                 # arguments that cannot cancel symbolically (cos(b - b) -> 1 removes the import of cos from the module)
                 arg = a if r < 0.4 else ["*", a, rng.choice(pool)] if r < 0.7 else ["+", ["*", a, rng.choice(pool)], ["c", dy(rng, 0, 1, 4, nonzero=True)]]
-                if f == "sincos" and "imports" in EXTRA:
+                if f == "sincos" and rng.random() < 0.5:
                     return ["fn", rng.choice(["sin", "cos"]), arg]
                 if f == "sincos":       # sin and cos always together (missing-import finding, see gen_support)
                     return ["*", ["fn", "sin", arg], ["fn", "cos", rng.choice(pool)]] if r < 0.5 else ["+", ["fn", "cos", arg], ["fn", "sin", rng.choice(pool)]]
@@ -389,7 +379,7 @@ def gen_case(rng, allow_viol=False, absv=False, want_delay=None, fns=False):
         def poly(bare_ok=True):
             for _ in range(200):
                 e, cls = poly1()
-                if sum(bits(e, benv)) <= BIT_LIMIT and (bare_ok or "identity" in EXTRA or e[0] not in ("v", "past")):
+                if sum(bits(e, benv)) <= BIT_LIMIT and (bare_ok or rng.random() < 0.5 or e[0] not in ("v", "past")):
                     return e, cls
             raise RuntimeError("generator: no expression within the bit limit")
 
@@ -418,8 +408,6 @@ def gen_case(rng, allow_viol=False, absv=False, want_delay=None, fns=False):
             benv["s_in"] = b
         inters = []
         for j in range(ni[i]):
-            # an algebraic equation that is a bare copy (`m = s_in`) makes the generated Jacobian call the undefined name `identity`
-            # when the edge weight is 1 (separate finding, see the report): not generated
             e, cls = poly(bare_ok=False)
             nm = INTER_NAMES[j]
             inters.append([nm, e]); cls_inter[(i, j)] = cls
@@ -475,12 +463,6 @@ def gen_support(rng):
                 t_ = ["*", t_, ["v", rng.choice(st)]]
             e = [rng.choice("+-"), e, t_]
         states.append([s, dy(rng, -1, 1, 4), e])
-    # the generated Jacobian file imports only the functions that occur in the vector field: a model with cos but without sin
-    # (or the reverse) raises NameError at call time (separate finding, see the report); this stream uses them in pairs
-    used = {x[1] for s_ in states for x in walk(s_[2]) if x[0] == "fn"}
-    for f, g in (("sin", "cos"), ("cos", "sin")):
-        if f in used and g not in used:
-            states[0][2] = ["+", states[0][2], ["fn", g, ["v", st[-1]]]]
     case = dict(nodes=[dict(name="A", states=states, inters=[], params=[["a", dy(rng, -2, 2, 4, nonzero=True)]], input=False)],
                 edges=[], solver="euler", sparse=False)
     case["points"] = [dict(t="0", y={s: dy(rng, -1, 1, 4) for s in all_states(case)}, params={}, h0={}, h1={}) for _ in range(2)]
@@ -503,7 +485,6 @@ Definition okS := on_points (fun s r obs _ => forallb (result_eqb (jac_spec QcO 
 Definition okF := on_points (fun s r _ obsF => qrow_eqb (vf QcO (fun c => c) s r) obsF).
 Definition g_wf (c : kase) := wf (fst c) && forallb execb (rhs (fst c)) && forallb (fun ma => execb (snd ma)) (algs (fst c)).
 Definition g_delayed (c : kase) := no_delayed_factor_in_j0 QcO (fst c).
-Definition g_absv (c : kase) := no_absv (fst c).
 """
 
 
@@ -628,15 +609,15 @@ def check_defaults(case, out):
 
 def model_compare(ctx, cases, outs, tag):
     """index lists: bad vs Impl, bad vs Spec, vector field differs, and the guards violated"""
-    res = dict(badI=[], badS=[], badF=[], wf=[], delayed=[], absv=[])
+    res = dict(badI=[], badS=[], badF=[], wf=[], delayed=[])
     shard = 40
     for s in range(0, len(cases), shard):
         terms = [coq_case(c, o) for c, o in zip(cases[s:s + shard], outs[s:s + shard])]
         body = ("Definition cases : list kase := " + clist(terms) + ".\n" +
-                "".join(f"Eval vm_compute in (mismatches {f} cases).\n" for f in ("okI", "okS", "okF", "g_wf", "g_delayed", "g_absv")))
+                "".join(f"Eval vm_compute in (mismatches {f} cases).\n" for f in ("okI", "okS", "okF", "g_wf", "g_delayed")))
         ls = parse_nat_lists(coq_eval(ctx, f"c12_{tag}_{s}", HEADER, body))
-        assert len(ls) == 6, ls
-        for key, l in zip(("badI", "badS", "badF", "wf", "delayed", "absv"), ls):
+        assert len(ls) == 5, ls
+        for key, l in zip(("badI", "badS", "badF", "wf", "delayed"), ls):
             res[key] += [s + i for i in l]
     return res
 
@@ -710,7 +691,7 @@ def check(ctx):
         for k in range(n_main):
             r = ctx.rng.random()
             cases.append(gen_case(ctx.rng, allow_viol=(GUARD_DELAYED in listed and r < 0.1),
-                                  absv=(GUARD_ABSV in listed and 0.1 <= r < 0.2),
+                                  absv=(0.1 <= r < 0.25),
                                   want_delay=(True if k % 2 == 0 else None), fns=(k % 4 == 1)))
     outs = run_impl(ctx, "c12", "impl", cases, per_case_timeout=90)
     crashed = [i for i, r in enumerate(outs) if "err" in r]
@@ -731,14 +712,12 @@ def check(ctx):
     guard_viol = {}
     for i in res["delayed"]:
         guard_viol.setdefault(i, []).append(GUARD_DELAYED)
-    for i in res["absv"]:
-        guard_viol.setdefault(i, []).append(GUARD_ABSV)
     bad_impl = sorted(set(res["badI"]) | set(res["badF"]))
     smap_diff = [i for i in good if outs[i]["smap_run"] != outs[i]["dense"]["smap"]]
     ctx.note(f"E1: {len(cases)} models x 3 points ({sum(1 for c in cases if has_delay(c))} with delays, "
              f"{sum(1 for i in good if 'sparse' in outs[i])} also compiled with sparse=True); J-vs-Impl mismatches {len(res['badI'])}, "
              f"J-vs-Spec mismatches {len(res['badS'])}, vector-field-vs-model mismatches {len(res['badF'])}, harness/worker errors {len(crashed)}, "
-             f"outside guards: delayed factor {len(res['delayed'])}, absv {len(res['absv'])}; state maps of run/jacobian differ: {len(smap_diff)}")
+             f"outside guard: delayed factor {len(res['delayed'])}; with absv: {sum(1 for c in cases if any(x[0] == 'fn' and x[1] == 'absv' for nd in c['nodes'] for q in [s_[2] for s_ in nd['states']] + [i_[1] for i_ in nd['inters']] for x in walk(q)))}; state maps of run/jacobian differ: {len(smap_diff)}")
 
     # pending finding witnesses (in corpus/, finding not yet listed in known_findings.json): replayed and reported, never silent
     if pending:
@@ -799,4 +778,4 @@ def check(ctx):
                                  "what sympy + the printer emit evaluates like D on every generated model",
                                  "labels of the history matrices (which delay a returned matrix belongs to) are read from the generated source"],
                    assumptions=["scalar state variables (vectorize=False), default backend", "polynomial right-hand sides in the deciding stream",
-                                f"guards: {GUARD_DELAYED}, {GUARD_ABSV} (see known findings)", "IEEE rounding is outside the model: the model computes in Qc"])
+                                f"guard: {GUARD_DELAYED} (see known findings)", "IEEE rounding is outside the model: the model computes in Qc"])
